@@ -137,6 +137,61 @@ class JsonVsText(Harness):
         yield 'json-info-notes==text', ok2
 
 
+class JsonVsTextTwoCats(Harness):
+    """the SAME name listed in two categories whose rows differ (symbolic notes): per category the JSON notes equal that category's text findings."""
+    prop, ob = PROP, 'O2'
+    width = 64
+
+    def __init__(self, cat1, cat2):
+        self.cat1, self.cat2 = cat1, cat2
+        self.name = 'jsonvstext2-%s-%s' % (cat1, cat2)
+
+    def params(self):
+        return {'cat1': self.cat1, 'cat2': self.cat2}
+
+    def inputs(self):
+        r1, n1 = sym_row('ossh', 1, 1, 0)
+        r2, n2 = sym_row('both', 0, 1, 1)
+        return {'r1': r1, 'r2': r2}
+
+    def run(self, M, inp):
+        def patch(d2, d1):
+            d2[self.cat1][ROWNAME] = [list(x) for x in inp['r1']]
+            d2[self.cat2][ROWNAME] = [list(x) for x in inp['r2']]
+        L = {c: ['x'] for c in OL.CATS}
+        L[self.cat1] = [ROWNAME]
+        L[self.cat2] = ['y', ROWNAME]
+        t = OL.run_output(M, L, patch=patch)
+        j = OL.run_output(M, L, json=True, patch=patch)
+        if isinstance(t['ret'], Exc) or isinstance(j['ret'], Exc):
+            return {'exc': t['ret'] if isinstance(t['ret'], Exc) else j['ret']}
+        f = findings(t['lines'])
+        out = {'rt': t['ret'], 'rj': j['ret']}
+        for c in (self.cat1, self.cat2):
+            out['ft-' + c] = [(l, x) for cc, h, l, x in f if cc == c and bool(h == ROWNAME)]
+            out['jn-' + c] = [e['notes'] for e in j['doc'][c] if e['algorithm'] == ROWNAME]
+        return out
+
+    def check(self, inp, obs):
+        if 'exc' in obs:
+            yield 'no-exception', False
+            return
+        yield 'same-status', obs['rt'] == obs['rj']
+        for c in (self.cat1, self.cat2):
+            jn = obs['jn-' + c]
+            if len(jn) != 1:
+                yield 'one-json-entry-per-listed-name', False
+                continue
+            jn = jn[0]
+            flat = [('fail', x) for x in jn.get('fail', [])] + [('warn', x) for x in jn.get('warn', [])]
+            infos = list(jn.get('info', []))
+            ft = obs['ft-' + c]
+            tfw = [(l, x) for l, x in ft if l in ('fail', 'warn')]
+            tin = [x for l, x in ft if l == 'info' and not (isinstance(x, str) and x == '')]
+            yield 'json-fail-warn-notes==text', len(tfw) == len(flat) and all(a[0] == b[0] and bool(a[1] == b[1]) for a, b in zip(tfw, flat))
+            yield 'json-info-notes==text', len(tin) == len(infos) and all(any(bool(a == b) for b in infos) for a in tin)
+
+
 class BufferFilter(Harness):
     """OutputBuffer: an arbitrary sequence of <=4 print calls at symbolic levels under a symbolic minimum level and batch flag:
     exactly the calls at or above the level are kept, in order; head()/sep() vanish in batch mode."""
@@ -213,6 +268,8 @@ def tasks(tier):
             T.append(TwoRenderings(cat, nf, nw, ni))
             T.append(JsonVsText(cat, nf, nw, ni, False))
     T.append(JsonVsText('enc', 1, 1, 1, True))
+    for c1, c2 in ([('enc', 'mac'), ('kex', 'key')] if q else [('enc', 'mac'), ('mac', 'enc'), ('kex', 'key'), ('key', 'enc'), ('kex', 'mac')]):
+        T.append(JsonVsTextTwoCats(c1, c2))
     for n in ((1, 2, 3) if q else (1, 2, 3, 4)):
         T.append(BufferFilter(n))
     return T
@@ -225,6 +282,8 @@ def harness_by_name(name, params):
         return TwoRenderings(p['cat'], p['nf'], p['nw'], p['ni'])
     if k == 'jsonvstext':
         return JsonVsText(p['cat'], p['nf'], p['nw'], p['ni'], p['indent'])
+    if k == 'jsonvstext2':
+        return JsonVsTextTwoCats(p['cat1'], p['cat2'])
     if k == 'bufferfilter':
         return BufferFilter(p['n'])
     raise KeyError(name)
